@@ -37,7 +37,7 @@ def tasks(tier, seed):
     c = cfg(tier)
     T = []
     for (o, d, N) in c['cases']:
-        T.append({'name': 'perm o%d d%d N%d' % (o, d, N), 'order': o, 'dim': d, 'N': N, 'K': c['K'], 'all': True, 'seed': seed, 'timeout': 60})
+        T.append({'name': 'perm o%d d%d N%d' % (o, d, N), 'order': o, 'dim': d, 'N': N, 'K': c['K'], 'all': True, 'seed': seed, 'timeout': 60, 'thorough': tier == 'thorough' and N <= 4})
     for (o, d, N) in c['sample']:
         T.append({'name': 'perm-sample o%d d%d N%d' % (o, d, N), 'order': o, 'dim': d, 'N': N, 'K': c['K'], 'all': False, 'seed': seed, 'timeout': 60})
     return T
@@ -103,7 +103,7 @@ def run_task(t):
             rng.shuffle(p)
             perms.append(p)
     out = []
-    for fm in (0b11111111, 0):
+    for fm in ((0b11111111, 0) if not t.get('thorough') else X.PAIRWISE):
         for first in (False, True):
             fl = X.flags_from_int(fm)
             s, n, runs, nests = build_script(o, d, N, K, fl, t['seed'], perms, first)
